@@ -79,6 +79,15 @@ class C02(DocProp):
             yield {"kind": "text", "text": " ".join(words) + "\n", "feats": ["typo-hazard"], "profile": "typo-hazard",
                    "opts": [rand_opts(r, widths=[r.randint(6, 40)], force={"ellipses": True, "smartquotes": False}),
                             rand_opts(r, widths=[r.randint(6, 40)], force={"ellipses": True, "smartquotes": r.random() < 0.5})]}
+            # a number-dot word and an inline tag in one paragraph (listed finding KF-C02-escaped-number-in-tag-paragraph;
+            # G-doc keeps the two apart)
+            n = r.randint(6, 14)
+            words = [plain_word(r, 7) for _ in range(n)]
+            words[r.randint(1, n - 1)] = r.choice(["1999.", "12.", "2019."])
+            words[r.randint(1, n - 1)] = r.choice(["{% endif %}", "{{ var }}", "<!-- c -->", "{# n #}"])
+            words[0] = "Start"
+            yield {"kind": "text", "text": r.choice(["", "- ", "> "]) + " ".join(words) + "\n", "feats": ["tagnum-hazard"], "profile": "tagnum-hazard",
+                   "opts": [rand_opts(r, widths=[r.randint(8, 30)]), rand_opts(r, widths=[r.randint(8, 40)])]}
 
     def check(self, case, col: Collector):
         text, feats = self.load(case)
@@ -166,6 +175,15 @@ class C02(DocProp):
                 used.append("C02/nonidempotent/caused-by/smartquotes-needs-second-pass")
             if used and strip(a) == strip(b):
                 return used[0]
+        if not o.get("plaintext") and re.search(r"(?m)^(?:[ >]|[-*+] )*\d+\\\.", o1) and \
+                re.search(r"(?m)^(?:[ >]|[-*+] )*(?:\{[%{#]|<!--)|(?:[%}#]\}|-->)[ \t]*$", o1):
+            # pass 1 escaped a number-dot word at a line start ('1999\.') in a paragraph that has a tag at a line edge; pass 2 drops
+            # that escape (render_literal) and its tag handler then takes the line for a list item: it is wrapped on its own,
+            # not re-escaped, and may get a blank line next to the tag. Checked: undoing exactly that makes the passes equal.
+            unesc = lambda t: re.sub(r"(?m)^((?:[ >]|[-*+] )*\d+)\\\.", r"\1.", t)  # noqa: E731
+            flat = lambda t: re.sub(r"\s+", " ", re.sub(r"(?m)^[ >]+", "", unesc(t))).strip()  # noqa: E731
+            if flat(o1) == flat(o2):
+                return "C02/nonidempotent/caused-by/escaped-number-in-tag-paragraph"
         if tag_boundaries(text) != tag_boundaries(o1):
             return "C02/nonidempotent/caused-by/tag-newline-created-by-pass1"
         kind = line_kind(d[1] or d[2] or "")
